@@ -12,10 +12,15 @@ From Verif Require Import Numeral NumeralProofs.
 Import ListNotations.
 Open Scope Z_scope.
 
-(* The full property, over an abstract whole parser [parse_query] whose numeric positions
-   are read by the conversions modelled here.  Not proved: the whole parser is not modelled. *)
-Definition C25_full : Prop :=
-  forall (parse_query : bytes -> outcome unit), forall input, parse_query input <> Panic.
+(* The full property, as a predicate on a whole parser (input string -> for an accepted
+   query, the list of numerals written in it paired with the number stored in the AST).
+   Not proved for parse_query: the whole parser (pest grammar + AST building) is not modelled;
+   that part is tested by the correspondence run only. *)
+Definition C25_full (parse_query : bytes -> outcome (list (bytes * Z))) : Prop :=
+  forall input,
+    parse_query input <> Panic /\
+    forall nums, parse_query input = Ok nums ->
+      forall tok v, In (tok, v) nums -> denote tok = Some v.
 
 (* integer literals (decimal, 0x, 0o, optional sign): an accepted literal has exactly the
    value written (denote = unbounded mathematical value of the numeral) and fits i64 *)
